@@ -248,14 +248,14 @@ def content (img : Image) : Content :=
 def toSpec : Ev → SEv
   | .draw img row col => .draw (content img) row col
   | .erase img pos => .erase (content img) pos
-  | .resp id _ true => .error id
+  | .resp id placement true => .error id placement
   | .resp _ _ false => .other
   | .other => .other
 
 /-! ## line protocol
 
 `c11 model q<0|1> img <hash> <start> <end> <w> <h> <rs> <cs> <hex rgba…> … ev <d|e|r|x> …`
-`c11 monitor (D w h pix row col bytes | E w h pix row|- col|- bytes | R id bytes | X bytes)…`
+`c11 monitor (D w h pix row col bytes | E w h pix row|- col|- bytes | R id placement|- bytes | X bytes)…`
 `c11 kitty <hex>`
 -/
 open SurfModel.Proto
@@ -331,8 +331,8 @@ def parseTrace : List String → List (SEv × List UInt8) → Option (List (SEv 
       | none, none => some none
       | _, _ => none
     parseTrace rest ((.erase ⟨← w.toNat?, ← h.toNat?, ← unhex pix⟩ pos, ← unhex bytes) :: acc)
-  | "R" :: id :: bytes :: rest, acc => do
-    parseTrace rest ((.error (← id.toNat?), ← unhex bytes) :: acc)
+  | "R" :: id :: pl :: bytes :: rest, acc => do
+    parseTrace rest ((.error (← id.toNat?) (← optNat? pl), ← unhex bytes) :: acc)
   | "X" :: bytes :: rest, acc => do parseTrace rest ((.other, ← unhex bytes) :: acc)
   | _, _ => none
 
